@@ -512,6 +512,13 @@ func TestPropIDTransformer(t *testing.T) {
 		}
 		path := rapid.SampledFrom([]string{"", "svc", "a.b"}).Draw(t, "path")
 		tr := store.IDTransformer(tag, nil)
+		if rapid.Bool().Draw(t, "shared") {
+			// the same transformer value serves another handler on another pattern first
+			other := "other.$" + tag + ".x"
+			if got := tr.IDToRID("w1", nil, res.Pattern(other)); got != "other.w1.x" {
+				t.Fatalf("L7 IDToRID(w1) with pattern %q gives %q", other, got)
+			}
+		}
 		mux := res.NewMux(path)
 		mux.Handle(pattern, res.GetResource(func(res.GetRequest) {}))
 		full := pattern
